@@ -148,6 +148,10 @@ func validateCurves(config *Configuration) error {
 				return fmt.Errorf("curve %s: unsupported function type '%s', use one of: %s", curveConfig.ID, curveConfig.Function.Type, strings.Join(supportedTypes, " | "))
 			}
 
+			if len(curveConfig.Function.Curves) <= 0 {
+				return fmt.Errorf("curve %s: a function curve needs at least one curve to operate on", curveConfig.ID)
+			}
+
 			var connections []interface{}
 			for _, curve := range curveConfig.Function.Curves {
 				if curve == curveConfig.ID {
